@@ -298,7 +298,8 @@ func bytesPrefixRange(prefix, start []byte) *pebble.IterOptions {
 	} else {
 		r.LowerBound = []byte{}
 	}
-	r.LowerBound = append(r.LowerBound, start...)
+	// r.LowerBound is the caller's prefix slice: don't append into its spare capacity
+	r.LowerBound = append(append(make([]byte, 0, len(r.LowerBound)+len(start)), r.LowerBound...), start...)
 	return &r
 }
 
